@@ -1,17 +1,25 @@
-(* Props/C14.v — property theorems only (each closed by [exact lemma]). *)
+(* Props/C14.v — property theorems only (each closed by [exact lemma]), the
+   refuted witnesses (by computation) and one example.
+
+   Modelled and proved here: base64, URI, CSV/TSV (writer, reader, yq's header
+   and object logic), properties (writer, lexer/parser, flat maps, paths), the
+   Lua encoder's string literals and bare keys.  XML, TOML and the Lua decoder
+   run third-party tokenizers / a VM: no theorem here, they are tied to the
+   implementation by independent readers in checks/props/c14.py only. *)
 From Coq Require Import String.
-From YQ Require Import Base.Str Model.Base64 Model.Uri Spec.Codecs Proofs.Base64Proofs Proofs.UriProofs.
+From YQ Require Import Base.Str Model.Base64 Model.Uri Model.Csv Model.Props Model.LuaStr Spec.Codecs
+  Proofs.Base64Proofs Proofs.UriProofs Proofs.CsvProofs Proofs.PropsProofs Proofs.LuaProofs Proofs.PairProofs.
 
-(* ---------------- base64 ---------------- *)
+(* ======================= base64 ======================= *)
 
-(* decode (encode v) = v for every byte string, through yq's padder and the
-   newline filter of the library decoder *)
+(* decode (encode v) = v for every byte string, through yq's padder, the
+   newline filter and the block structure of the library's stream decoder *)
 Theorem C14_b64_roundtrip : forall s : str, bytes s -> b64_decode (b64_encode s) = B64Ok s.
 Proof. exact b64_roundtrip. Qed.
 Print Assumptions C14_b64_roundtrip.
 
-(* the encoder output is RFC 4648 text: alphabet characters, then zero to two
-   pad characters, length a multiple of four *)
+(* the output is RFC 4648 text: alphabet characters, then zero to two pad
+   characters, length a multiple of four *)
 Theorem C14_b64_wellformed : forall s : str, bytes s -> b64_wf (b64_encode s).
 Proof. exact b64_wellformed. Qed.
 Print Assumptions C14_b64_wellformed.
@@ -23,8 +31,7 @@ Proof. exact b64_unpadded_roundtrip. Qed.
 Print Assumptions C14_b64_unpadded_roundtrip.
 
 (* KNOWN FINDING b64-newline: the padder counts CR / LF as data, so base64
-   text followed by a newline (any file written by base64(1) or echo) is
-   rejected although the library decoder is built to skip newlines. *)
+   text followed by a newline is rejected *)
 Theorem C14_b64_trailing_newline_refuted : exists s : str,
   bytes s /\ b64_decode (b64_encode s ++ [10]) <> B64Ok s.
 Proof.
@@ -41,14 +48,13 @@ Theorem C14_b64_fixed_accepts_newlines : forall s t : str, bytes s ->
 Proof. exact b64_fixed_accepts_newlines. Qed.
 Print Assumptions C14_b64_fixed_accepts_newlines.
 
-(* ---------------- URI ---------------- *)
+(* ======================= URI ======================= *)
 
-(* the escaper's output is a well-formed form-urlencoded component (only
-   unreserved characters, plus, and percent escapes with upper-case hex)
-   which denotes the input *)
+(* the output is a well-formed form-urlencoded component (unreserved
+   characters, plus, percent escapes with upper-case hex) denoting the input *)
 Theorem C14_uri_wellformed : forall s : str, bytes s ->
   uri_wf (uri_escape s) /\ uri_denotes (uri_escape s) s.
-Proof. intros s H. split; [exact (uri_escape_wf s H)|exact (uri_escape_denotes s H)]. Qed.
+Proof. exact uri_escape_wf_denotes. Qed.
 Print Assumptions C14_uri_wellformed.
 
 (* decoding any well-formed text yields the value it denotes *)
@@ -60,14 +66,150 @@ Theorem C14_uri_roundtrip : forall s : str, bytes s -> uri_unescape (uri_escape 
 Proof. exact uri_roundtrip. Qed.
 Print Assumptions C14_uri_roundtrip.
 
-(* non-vacuity *)
+(* a node that is not a string is rejected by both encoders *)
+Theorem C14_nonstring_rejected : forall v : str,
+  encode_string_node b64_encode false v = None /\ encode_string_node uri_escape false v = None.
+Proof. exact (fun v => conj (nonstring_rejected b64_encode v) (nonstring_rejected uri_escape v)). Qed.
+Print Assumptions C14_nonstring_rejected.
+
+(* ======================= CSV / TSV ======================= *)
+
+(* what the writer emits for a field is an RFC 4180 field denoting it
+   (bare without quote / separator / CR / LF, or quoted with doubled quotes) *)
+Theorem C14_csv_field_wellformed : forall (sep : N) (f : str),
+  csv_field_denotes sep (csv_write_field sep f) f.
+Proof. exact csv_field_wellformed. Qed.
+Print Assumptions C14_csv_field_wellformed.
+
+(* read (write rows) = rows for every valid separator and all rectangular
+   rows whose fields hold no CR LF pair and that are not a lone empty field:
+   separators, quotes, CR, LF, leading blanks, any bytes inside fields *)
+Theorem C14_csv_rows_roundtrip : forall (sep : N) (rows : list (list str)),
+  csv_valid_sep sep = true -> Forall csv_row_ok rows -> rectangular rows ->
+  csv_read sep (csv_write sep rows) = CsvOk rows.
+Proof. exact csv_rows_roundtrip. Qed.
+Print Assumptions C14_csv_rows_roundtrip.
+
+(* yq's object form: an array of objects over one header is written as
+   header + rows and decoded to the same objects *)
+Theorem C14_csv_objects_roundtrip : forall (sep : N) (header : list str) (rows : list (list str)),
+  csv_valid_sep sep = true -> NoDup header -> header <> [] -> rows <> [] ->
+  Forall (fun r => length r = length header) rows ->
+  Forall csv_row_ok (header :: rows) ->
+  skip_bom (csv_write sep (header :: rows)) = csv_write sep (header :: rows) ->
+  exists text, csv_encode sep (obj_doc header rows) = Some text /\
+               csv_decode sep text = CsvOk (List.map (fun row => combine header row) rows).
+Proof. exact csv_objects_roundtrip. Qed.
+Print Assumptions C14_csv_objects_roundtrip.
+
+(* KNOWN FINDING csv-single-empty: a one-column row holding the empty string
+   is written as a blank line and lost *)
+Theorem C14_csv_single_empty_refuted : exists rows : list (list str),
+  rectangular rows /\ csv_read 44 (csv_write 44 rows) <> CsvOk rows.
+Proof. exists [[[97]]; [[]]; [[120]]]. split; [reflexivity|vm_compute; discriminate]. Qed.
+Print Assumptions C14_csv_single_empty_refuted.
+
+(* KNOWN FINDING csv-crlf: CR LF inside a field comes back as LF *)
+Theorem C14_csv_crlf_refuted : exists rows : list (list str),
+  rectangular rows /\ csv_read 44 (csv_write 44 rows) = CsvOk [[[120; 10; 121]]] /\ rows <> [[[120; 10; 121]]].
+Proof. exists [[[120; 13; 10; 121]]]. split; [reflexivity|]. split; [vm_compute; reflexivity|discriminate]. Qed.
+Print Assumptions C14_csv_crlf_refuted.
+
+(* KNOWN FINDING csv-extra-keys: a key the first object lacks is dropped *)
+Theorem C14_csv_extra_keys_refuted : exists doc : cnode,
+  doc = CSeq [CMap [([97], CScalar [49])]; CMap [([97], CScalar [50]); ([98], CScalar [51])]] /\
+  csv_encode 44 doc = Some [97; 10; 49; 10; 50; 10].
+Proof. eexists. split; [reflexivity|vm_compute; reflexivity]. Qed.
+Print Assumptions C14_csv_extra_keys_refuted.
+
+(* ======================= properties ======================= *)
+
+(* the library's lexer / parser reads back the entries the writer wrote, for
+   every admissible separator, on the stated key / value domain *)
+Theorem C14_props_entries_roundtrip : forall (sep : str) (kvs : list (str * str)),
+  props_sep_ok sep = true -> Forall props_entry_ok kvs -> NoDup (List.map fst kvs) ->
+  props_parse (props_write sep kvs) = Some kvs.
+Proof. exact props_flat_roundtrip. Qed.
+Print Assumptions C14_props_entries_roundtrip.
+
+(* decode (encode m) = m for flat string maps *)
+Theorem C14_props_flat_roundtrip : forall (sep : str) (kvs : list (str * str)),
+  props_sep_ok sep = true -> Forall props_entry_ok kvs -> NoDup (List.map fst kvs) -> kvs <> [] ->
+  props_parse (props_encode sep false (flat_doc kvs)) = Some kvs.
+Proof. exact props_flat_map_roundtrip. Qed.
+Print Assumptions C14_props_flat_roundtrip.
+
+(* paths joined with dots split back into their keys when no key holds a dot *)
+Theorem C14_props_paths : forall keys : list str,
+  keys <> [] -> Forall (fun k => no_dot k = true) keys -> split_dot (join_dot keys) = keys.
+Proof. exact split_join_dot. Qed.
+Print Assumptions C14_props_paths.
+
+(* KNOWN FINDING props-key-escape: an equals sign in a key is not escaped *)
+Theorem C14_props_key_equals_refuted : exists kvs : list (str * str),
+  kvs = [([97; 61; 98], [118])] /\ props_parse (props_write [32; 61; 32] kvs) = Some [([97], [98; 32; 61; 32; 118])].
+Proof. eexists. split; [reflexivity|vm_compute; reflexivity]. Qed.
+Print Assumptions C14_props_key_equals_refuted.
+
+(* ... and a key starting with a comment character loses its entry *)
+Theorem C14_props_comment_key_refuted : exists kvs : list (str * str),
+  kvs = [([35; 97], [118])] /\ props_parse (props_write [32; 61; 32] kvs) = Some [].
+Proof. eexists. split; [reflexivity|vm_compute; reflexivity]. Qed.
+Print Assumptions C14_props_comment_key_refuted.
+
+(* KNOWN FINDING props-leading-space *)
+Theorem C14_props_leading_space_refuted : exists kvs : list (str * str),
+  kvs = [([97], [32; 120])] /\ props_parse (props_write [32; 61; 32] kvs) = Some [([97], [120])].
+Proof. eexists. split; [reflexivity|vm_compute; reflexivity]. Qed.
+Print Assumptions C14_props_leading_space_refuted.
+
+(* ======================= Lua encoder ======================= *)
+
+(* a string scalar is written as a Lua short literal that a Lua lexer reads
+   back as the same bytes, whatever follows the closing quote *)
+Theorem C14_lua_string_literal_roundtrip : forall s rest : str, bytes s ->
+  exists body, lua_quote s ++ rest = 34 :: body /\ lua_read_dq body = Some (s, rest).
+Proof. exact lua_quote_reads_back. Qed.
+Print Assumptions C14_lua_string_literal_roundtrip.
+
+(* a non-empty key written bare is a Lua Name that is not a reserved word *)
+Theorem C14_lua_bare_key_sound : forall k : str,
+  k <> [] -> lua_needs_quoting k = false -> lua_is_name k = true.
+Proof. exact lua_bare_key_sound. Qed.
+Print Assumptions C14_lua_bare_key_sound.
+
+(* KNOWN FINDING lua-empty-unquoted-key *)
+Theorem C14_lua_empty_key_refuted : exists k : str,
+  lua_needs_quoting k = false /\ lua_is_name k = false.
+Proof. exists []. split; reflexivity. Qed.
+Print Assumptions C14_lua_empty_key_refuted.
+
+(* ======================= in-expression pairs ======================= *)
+
+(* @base64 / @base64d, @uri / @urid, to_props / from_props are the codecs
+   applied to the node value, hence inverse pairs on the domains above *)
+Theorem C14_inverse_pairs :
+  (forall s, bytes s -> b64_decode (b64_encode s) = B64Ok s) /\
+  (forall s, bytes s -> uri_unescape (uri_escape s) = Some s) /\
+  (forall kvs, Forall props_entry_ok kvs -> NoDup (List.map fst kvs) -> kvs <> [] ->
+     props_parse (props_encode [] false (flat_doc kvs)) = Some kvs).
+Proof. exact inverse_pairs. Qed.
+Print Assumptions C14_inverse_pairs.
+
+(* non-vacuity: the hypotheses are met by adversarial inputs *)
 Example C14_example :
   let s := str_of_string "a b&c/~"%string in
+  let rows := [[str_of_string "k,1"%string; str_of_string "q"%string];
+               [str_of_string " x"%string; [34; 10; 13]]] in
+  let kvs := [(str_of_string "a b:c"%string, str_of_string "x=y\z"%string)] in
   bytes s /\ uri_escape s = str_of_string "a+b%26c%2F~"%string
-  /\ b64_encode s = str_of_string "YSBiJmMvfg=="%string.
+  /\ b64_encode s = str_of_string "YSBiJmMvfg=="%string
+  /\ csv_valid_sep 44 = true /\ Forall csv_row_ok rows /\ rectangular rows
+  /\ Forall props_entry_ok kvs /\ props_sep_ok [32; 61; 32] = true
+  /\ props_write [32; 61; 32] kvs = str_of_string "a\ b\:c = x=y\\z"%string ++ [10].
 Proof.
-  cbv zeta. split; [|split].
+  cbv zeta. repeat split; try (vm_compute; reflexivity); try (vm_compute; discriminate).
   - vm_compute. repeat (constructor; [reflexivity|]). constructor.
-  - vm_compute. reflexivity.
-  - vm_compute. reflexivity.
+  - repeat constructor; try (vm_compute; discriminate).
+  - repeat constructor.
 Qed.
